@@ -96,7 +96,8 @@ def r1(ctx, F):
                   'copy_atomic renames the staged file without fsync: the archive (which is fsynced) can become durable before the data it describes',
                   term_loc(b, rb))
     # (c) once content was staged, a successful return passes the rename (an early Ok before any write is not judged)
-    oks = [rb_ for (rb_, kind, data) in ret_defs(b) if not (kind == 'call' and callee(data) == 'std::ops::FromResidual::from_residual')]
+    errs_ = error_blocks(b)
+    oks = [rb_ for (rb_, kind, data) in ret_defs(b) if rb_ not in errs_]
     rn = {rb for rb, _ in renames}
     reach_wo = set()
     for cb, _ in creators:
